@@ -61,10 +61,14 @@ RULE = (
     "Part 1 run = application shape (contexts per application, styles gen/cm/obj, handler and sub-application "
     "registration order) x first failing start-up step (context, on_startup handler, site bind, or none; for run_app "
     "also a signal during start-up) x set of failing teardown steps (context cleanup code, on_shutdown, on_cleanup) x "
-    "entry point. Part 2 run = 2-7 connections in different phases x shutdown_timeout x on_shutdown behaviour x late "
+    "entry point; in 12 % of them some of the failing teardown steps end with asyncio.CancelledError (the callback "
+    "cancels a background task and awaits it unsuppressed) instead of raising an ordinary exception. "
+    "Part 2 run = 2-7 connections in different phases x shutdown_timeout x on_shutdown behaviour x late "
     "connection / late request x entry point x shutdown instant (loop step or virtual time) x segmentation/latency; "
     "12 % of them place 1-2 requests (plain / with a request queued behind / streaming) so that they are in flight at "
-    "the shutdown instant and end while a slow on_shutdown handler is still running. "
+    "the shutdown instant and end while a slow on_shutdown handler is still running; in 8 % (AppRunner only) the task "
+    "awaiting cleanup() is cancelled 0 .. 1.5 x shutdown_timeout after on_shutdown was delivered, while the server "
+    "drains the requests in flight (only the clauses that do not depend on cleanup() returning are judged then). "
     "Non-trivial: part 1 - at least two contexts started and at least one callback raised; part 2 - the shutdown fired "
     "while at least one handler was running and at least one other connection was idle or half-received. "
     "Distinct = interleaving signature."
@@ -77,7 +81,10 @@ ENUM_RULE = (
     "plus 5-context shapes with every subset of <=3 failing cleanup codes (thorough: every subset). Part 2: fixed "
     "multi-connection baselines (9 in quick, two of them with requests that end while slow on_shutdown handlers are "
     "still running) under an all-zero choice tape x the shutdown instant before every loop "
-    "step from just before the first client connects up to the horizon x {AppRunner.cleanup(), SIGTERM to run_app}."
+    "step from just before the first client connects up to the horizon x {AppRunner.cleanup(), SIGTERM to run_app}. "
+    "First of all: 6 shapes x every first failing start-up position x ONE teardown step ending with CancelledError "
+    "(alone / with one other step raising) x both entry points; and 4 baselines x the task awaiting "
+    "AppRunner.cleanup() cancelled at 8 offsets (0 .. 1.5 x shutdown_timeout) after on_shutdown was delivered."
 )
 COMPONENTS = {
     "real": ["aiohttp.web.Application / CleanupContext / signals / sub-applications", "web_runner.AppRunner, TCPSite",
@@ -93,6 +100,10 @@ ASSUMPTIONS = [
     "AppRunner is used as documented: setup(), site.start(), then cleanup() whether or not setup()/start() raised",
     "reverse order is demanded among the contexts of one application only (no cross-application order is documented)",
     "the graceful period is measured from the instant the on_shutdown signal has been delivered",
+    "a teardown step that ends with asyncio.CancelledError is a failing cleanup step like one that raises; where the "
+    "CancelledError surfaces is not judged, and through run_app (which absorbs it) neither is the reporting of other errors",
+    "a caller that cancels the task awaiting AppRunner.cleanup() while requests are drained still gets the cleanup code "
+    "of started contexts run once; connection states and timeouts are not judged for such a run (cleanup did not return)",
     "TCP stream semantics of SimNet; a close by the server reaches the client as EOF after the bytes in flight",
 ]
 
@@ -209,9 +220,30 @@ def _gen_part1(rng):
     # arrives while run_app is already cleaning up after a failed site start is a second termination request
     # and outside the property's quantifier, so early signals are not combined with a site failure.
     early = entry == "run_app" and "site" not in sr
-    return {"part": 1, "entry": entry, "app": spec, "setup_raise": sr, "teardown_raise": tr,
-            "signal_at": rng.choice([50, 50, 50, 0, 1, 2, 3, 5]) if early else 50,
-            "sig": rng.choice(["SIGTERM", "SIGINT"])}
+    scn = {"part": 1, "entry": entry, "app": spec, "setup_raise": sr, "teardown_raise": tr,
+           "signal_at": rng.choice([50, 50, 50, 0, 1, 2, 3, 5]) if early else 50,
+           "sig": rng.choice(["SIGTERM", "SIGINT"])}
+    if rng.random() < 0.12:
+        _cancel_mode_feature(rng, scn, td)
+    return scn
+
+
+def _cancel_mode_feature(rng, scn, td):
+    """How a teardown step fails: some of the failing steps do not raise an ordinary exception but end with
+    asyncio.CancelledError - the callback stops a background task of the application the usual way
+    (task.cancel(); await task) without suppressing the result.  CancelledError is a BaseException, not an
+    Exception: the other half of 'any set of cleanup steps that fail'."""
+    tr = list(scn["teardown_raise"])
+    if not tr or rng.random() < 0.4:
+        sd = [i for i in td if i.split(".")[1][0] == "d"]
+        extra = rng.choice(sd if sd and rng.random() < 0.7 else td) if td else None
+        if extra is not None and extra not in tr:
+            tr = [i for i in td if i in tr or i == extra]
+    tc = [i for i in tr if rng.random() < 0.6]
+    if tr and not tc:
+        tc = [rng.choice(tr)]
+    scn["teardown_raise"], scn["teardown_cancel"] = tr, tc
+    scn["feature"] = "cancel_mode"
 
 
 # =========================================================================== part 2: scenarios
@@ -313,6 +345,13 @@ def _gen_part2(rng):
            "horizon": 40, "shutdown": shutdown}
     if rng.random() < 0.12:
         _window_feature(rng, scn)
+    if rng.random() < 0.16 and scn["entry"] == "runner":  # half of the scenarios use this entry point: 8 %
+        # the caller gives up waiting for AppRunner.cleanup() (outer timeout, second stop request): the task
+        # awaiting it is cancelled d ms after on_shutdown has been delivered, while requests are being drained
+        scn["cancel_cleanup"] = {"after_ms": rng.choice([0, 1, 2, 5, ms_T // 2, ms_T * 9 // 10, ms_T + 1, ms_T * 3 // 2])}
+        if not any(c["kind"] in ("sleep", "stream", "ws_mute", "pipe") for c in scn["conns"]):
+            scn["conns"].append(_conn("sleep", rng.randint(1, 8), ms=rng.choice(durs[1:])))
+        scn["feature"] = (scn.get("feature", "") + "+cancel_cleanup").lstrip("+")
     return scn
 
 
@@ -357,7 +396,49 @@ def gen(rng, tier, index):
     return _gen_part2(rng)
 
 
+def _cancel_mode_cases(tier):
+    """Part 1, failure mode 'ends with CancelledError': a few shapes x every first failing start-up position x ONE
+    teardown step (context cleanup code, on_shutdown or on_cleanup handler) that ends with CancelledError, alone and
+    together with one other step raising an ordinary exception, x {AppRunner, run_app}."""
+    shapes = [_mk_app("m", 1, 0, "d"), _mk_app("m", 2, 1, "sdx"), _mk_app("m", 3, 2, "sdx"),
+              _mk_app("m", 1, 2, "sdx", [_mk_app("A", 1, 1, "sx")], False),
+              _mk_app("m", 2, 3, "sdx", [_mk_app("A", 1, 1, "sx"), _mk_app("B", 1, 2, "d")], True),
+              _mk_app("m", 0, 2, "x", [_mk_app("A", 2, 1, "sdx")], False)]
+    for spec in shapes:
+        cbs = [it for it, _a in L.walk(spec)]
+        setup_pos = [None] + [it["id"] for it in cbs if it["k"] in ("ctx", "startup")] + ["site"]
+        tds = [it["id"] for it in cbs if it["k"] in ("ctx", "shutdown", "cleanup")]
+        for sp in setup_pos:
+            sr = [] if sp is None else [sp]
+            doc = L.documented_trace(spec, setup_raise=[x for x in sr if x != "site"], site_fails=sp == "site")
+            runs = {i for k, i in doc if k == "exit"}  # teardown steps that are due after this start-up
+            for c in tds:
+                if c not in runs:
+                    continue
+                for other in [None] + [o for o in tds if o != c and o in runs]:
+                    for entry in ("runner", "run_app"):
+                        yield {"part": 1, "entry": entry, "app": spec, "setup_raise": sr,
+                               "teardown_raise": [i for i in tds if i in (c, other)], "teardown_cancel": [c],
+                               "signal_at": 50, "sig": "SIGTERM" if other is None else "SIGINT",
+                               "feature": "cancel_mode"}
+
+
+def _cancel_cleanup_cases(tier):
+    """Part 2: the task awaiting AppRunner.cleanup() is cancelled d ms after on_shutdown was delivered, i.e. while the
+    server drains the requests in flight (graceful period, d < T) or waits for the cancelled handlers (T <= d < 2T)."""
+    sc = {name: base for name, base, _stride in _scenes(tier)}
+    for name in ("A", "B", "C", "W"):
+        base = sc[name]
+        ms_T = int(base["T"] * 1000)
+        for d in sorted({0, 1, 3, 10, ms_T // 2, ms_T - 1, ms_T + 1, ms_T * 3 // 2}):
+            for sd in ({"step": None}, {"t": 10}):
+                yield dict(base, entry="runner", scene=name + "-cc", shutdown=sd, cancel_cleanup={"after_ms": d},
+                           feature="cancel_cleanup")
+
+
 def enumerate_cases(tier, seed):
+    yield from _cancel_mode_cases(tier)
+    yield from _cancel_cleanup_cases(tier)
     yield from _part2_cases(tier)
     yield from _part1_cases(tier)
 
@@ -392,16 +473,25 @@ def _map_items(spec, fn):
 
 def shrink(scn):
     if scn["part"] == 1:
+        tc = scn.get("teardown_cancel") or []
         for key in ("teardown_raise", "setup_raise"):
             for i in range(len(scn[key])):
-                yield dict(scn, **{key: scn[key][:i] + scn[key][i + 1:]})
+                cand = dict(scn, **{key: scn[key][:i] + scn[key][i + 1:]})
+                if tc:
+                    cand["teardown_cancel"] = [x for x in tc if x in cand["teardown_raise"]]
+                yield cand
+        for i in range(len(tc)):  # an ordinary exception instead of CancelledError
+            yield dict(scn, teardown_cancel=tc[:i] + tc[i + 1:])
         spec = scn["app"]
         raising = set(scn["setup_raise"]) | set(scn["teardown_raise"])
         for sid in list(_sub_ids(spec)):
             cand = _drop_item(spec, sid)
             left = {it["id"] for it, _a in L.walk(cand)} | {"site"}
-            yield dict(scn, app=cand, setup_raise=[i for i in scn["setup_raise"] if i in left],
-                       teardown_raise=[i for i in scn["teardown_raise"] if i in left])
+            cand = dict(scn, app=cand, setup_raise=[i for i in scn["setup_raise"] if i in left],
+                        teardown_raise=[i for i in scn["teardown_raise"] if i in left])
+            if tc:
+                cand["teardown_cancel"] = [i for i in tc if i in left]
+            yield cand
         for it, _a in list(L.walk(spec)):
             if it["id"] not in raising:
                 yield dict(scn, app=_drop_item(spec, it["id"]))
@@ -414,6 +504,12 @@ def shrink(scn):
         return
     conns = scn["conns"]
     lr = scn.get("late_req")
+    cc = scn.get("cancel_cleanup")
+    if cc is not None:
+        yield {k: v for k, v in scn.items() if k != "cancel_cleanup"}
+        for d in (0, cc["after_ms"] // 2):
+            if d < cc["after_ms"]:
+                yield dict(scn, cancel_cleanup={"after_ms": d})
     for i in range(len(conns)):
         if lr is not None and lr[0] == i:
             continue
@@ -540,6 +636,9 @@ def _run_app_guarded(loop, app, st, **kw):
         st["raised"] = e
         st["returned"] = True
         st["graceful_exit_escaped"] = True
+    except asyncio.CancelledError as e:  # a teardown step that ended with CancelledError, after a failed start-up
+        st["raised"] = e
+        st["returned"] = True
     except Exception as e:  # start-up / cleanup errors are re-raised by run_app
         st["raised"] = e
         stopped = isinstance(e, RuntimeError) and "Event loop stopped before Future completed" in str(e)
@@ -577,7 +676,7 @@ class _Trace(list):
         super().append(ev)
 
 
-def _build_app(spec, events, setup_raise, teardown_raise, flt):
+def _build_app(spec, events, setup_raise, teardown_raise, flt, teardown_cancel=frozenset()):
     from contextlib import asynccontextmanager
 
     from aiohttp import web
@@ -606,6 +705,14 @@ def _build_app(spec, events, setup_raise, teardown_raise, flt):
         i = it["id"]
         events.append(["exit", i])
         await pause(it.get("y", 0))
+        if i in teardown_raise and i in teardown_cancel:
+            # the step stops a background job of the application and awaits it without suppressing the outcome
+            events.append(["teardown_cancelled", i])
+            flt["crash_teardown_cancelled_error"] += 1
+            job = asyncio.ensure_future(asyncio.sleep(3600.0))
+            job.cancel()
+            await job  # raises asyncio.CancelledError
+            raise AssertionError("unreachable")
         if i in teardown_raise:
             events.append(["teardown_raise", i])
             flt["crash_teardown"] += 1
@@ -667,7 +774,8 @@ def _run_part1(scn, ch, log):
         events = _Trace(loop)
         net.max_latency_ticks = 0
         sr = set(scn["setup_raise"])
-        app = _build_app(scn["app"], events, sr, set(scn["teardown_raise"]), loop.faults)
+        app = _build_app(scn["app"], events, sr, set(scn["teardown_raise"]), loop.faults,
+                         frozenset(scn.get("teardown_cancel") or ()))
         if "site" in sr:
             net.listen(asyncio.Protocol, ADDR[0], ADDR[1])  # address already in use
         if entry == "runner":
@@ -690,6 +798,9 @@ def _run_part1(scn, ch, log):
                     await runner.cleanup()
                 except Exception as e:
                     raised.append(e)
+                except asyncio.CancelledError as e:  # a teardown step ended with CancelledError (nobody cancels main)
+                    raised.append(e)
+                    st["cleanup_cancelled_error"] = True
 
             t = loop.run_sim(main(), vt_cap=30.0, step_cap=50_000)
             st["returned"] = t.done()
@@ -732,10 +843,20 @@ def _run_part1(scn, ch, log):
                                      f"interrupted run_until_complete(main_task) ended it; trace={L._fmt(events)}"})
         gc.collect()  # an exception left in a finished, unobserved task is logged when the task is collected
         # a start-up cancelled by the signal counts as a failed start-up step
-        jev = [["setup_raise", i] if k == "setup_cancelled" else [k, i] for k, i in events]
+        # ... and a teardown step that ended with CancelledError counts as a failed teardown step
+        jev = [["setup_raise", i] if k == "setup_cancelled" else ["teardown_raise", i] if k == "teardown_cancelled"
+               else [k, i] for k, i in events]
         cancelled = any(k == "setup_cancelled" for k, _i in events)
+        td_cancelled = [i for k, i in events if k == "teardown_cancelled"]
+        td_raised = [i for k, i in events if k == "teardown_raise"]
+        kind_of = L.kinds(scn["app"])
+        # every on_shutdown failure of the run was a CancelledError
+        sd_only_cancelled = bool(td_cancelled) and not any(kind_of.get(i) == "shutdown" for i in td_raised) \
+            and any(kind_of.get(i) == "shutdown" for i in td_cancelled)
         rep = _reported(raised, loop, cap)
         rep |= {(i, "setup") for k, i in events if k == "setup_cancelled"}
+        # a CancelledError is not an error report: where it surfaces is not judged (G5 is about exceptions)
+        rep |= {(i, "teardown") for i in td_cancelled}
         # run_app only: the signal arrived while start-up was still running / in the iteration it failed in
         raced = entry == "run_app" and loop.faults.get("signal", 0) > 0 \
             and (st.get("signal_before_failure") or not any(k == "exit" for k, _i in events)) \
@@ -745,6 +866,18 @@ def _run_part1(scn, ch, log):
                 continue
             if cancelled:
                 v = dict(v, key=v["key"].replace("startup_failed", "startup_cancelled"))
+            if td_cancelled and entry == "run_app" and v["invariant"] == "errors_reported":
+                # A CancelledError that ends run_app's main task cannot be told from run_app's own cancellation of
+                # that task and is absorbed like it; exceptions raised by earlier steps travel only as its
+                # __context__.  Reporting is judged through AppRunner for this failure mode (the caller gets the
+                # CancelledError with its chain), not through run_app.
+                continue
+            if td_cancelled:
+                key = v["key"]
+                if sd_only_cancelled:
+                    key = key.replace(":on_shutdown_raised:", ":on_shutdown_cancelled_error:")
+                v = dict(v, key=key, message=f"(teardown steps that ended with asyncio.CancelledError instead of an "
+                                             f"ordinary exception: {td_cancelled}) " + v["message"])
             if raced and v["invariant"] == "errors_reported":
                 v = dict(v, key=v["key"] + ":signal_raced_startup_failure",
                          message="(a signal was delivered in the loop iteration in which start-up failed) " + v["message"])
@@ -758,12 +891,16 @@ def _run_part1(scn, ch, log):
                               "message": f"exception reached the event loop: {c['message']} {c['exc']}"})
                 break
         nstarted = sum(1 for k, i in events if k == "started" and "." in i and i.split(".")[1][0] == "c")
-        nraised = sum(1 for k, _i in events if k in ("setup_raise", "teardown_raise", "site_fail", "setup_cancelled"))
+        nraised = sum(1 for k, _i in events if k in ("setup_raise", "teardown_raise", "site_fail", "setup_cancelled",
+                                                     "teardown_cancelled"))
         stt = w.stats()
         n_ctx = len(L.contexts(scn["app"]))
         probes = {
             "p1_runs": 1, "p1_setup_failed": int(any(k in ("setup_raise", "site_fail") for k, _ in events)),
             "p1_setup_cancelled": int(cancelled), "p1_teardown_raised": int(any(k == "teardown_raise" for k, _ in events)),
+            "p1_teardown_step_ended_with_cancelled_error": int(bool(td_cancelled)),
+            "p1_on_shutdown_ended_with_cancelled_error": int(any(kind_of.get(i) == "shutdown" for i in td_cancelled)),
+            "p1_cancelled_error_reached_caller": int(any(isinstance(e, asyncio.CancelledError) for e in raised)),
             "p1_multi_teardown_errors": int(sum(1 for k, _ in events if k == "teardown_raise") > 1),
             "p1_cleanup_error_group": int(any(type(e).__name__ == "CleanupError" for e in raised)),
             "p1_cross_app_start_order_cleanup": int(L.cross_app_inversions(scn["app"], events) > 0),
@@ -977,8 +1114,22 @@ def _run_part2(scn, ch, log):
         async def sd_slow(app):
             await asyncio.sleep(int(scn["on_shutdown"].split(":")[1]) * TICK)
 
+        cc = scn.get("cancel_cleanup") if entry == "runner" else None
+
+        def cancel_cleanup():
+            t = box.get("cleanup_task")
+            if t is None or t.done() or any(x[0] == "exit" for x in st["ctx"]):
+                return  # nothing left to drain: the shutdown step is over
+            st["cleanup_cancelled"] = {"t": loop.time(), "step": loop.steps,
+                                       "running": sorted({r["conn"] for r in recs if r["t1"] is None})}
+            loop.faults["cleanup_task_cancelled_while_draining"] += 1
+            loop.note("cancel", "cleanup_task")
+            t.cancel()
+
         async def sd_last(app):
             st["hooks_done"] = loop.time()
+            if cc is not None:
+                handles.append(loop.sim_call_later(cc["after_ms"] * TICK + 0.0003, cancel_cleanup))
 
         app = web.Application(middlewares=[mw])
         app.router.add_get("/fast", fast)
@@ -1077,6 +1228,10 @@ def _run_part2(scn, ch, log):
                 await box["runner"].cleanup()
             except Exception as e:
                 st["cleanup_exc"] = e
+            except asyncio.CancelledError:
+                if not st.get("cleanup_cancelled"):
+                    raise
+                st["cleanup_cancelled"]["raised"] = True
             finally:
                 st["returned"] = True
                 snapshot()
@@ -1159,6 +1314,27 @@ def _run_part2(scn, ch, log):
                     f"{sorted({r['conn'] for r in recs if r['t1'] is None})}; {ctxd}")
         elif mk is None or st["hooks_done"] is None:
             violate("returns", f"{entry}:on_shutdown_not_delivered", f"on_shutdown handlers did not run; {ctxd}")
+        elif st.get("cleanup_cancelled"):
+            # The caller stopped waiting: cleanup() did not return, so the clauses about the state "when cleanup
+            # returns" and the two timeout periods say nothing here.  What the statement still demands: the shutdown
+            # step ended by a failure (CancelledError) like any other failing cleanup step, so the cleanup code of
+            # every context that started runs, once; and what had to happen before the cancellation did happen.
+            cx = st["cleanup_cancelled"]
+            ctxd += f" cleanup_task_cancelled_at={cx['t']:.4f} (step {cx['step']}, handlers running on {cx['running']})"
+            ex = [x for x in st["ctx"] if x[0] == "exit"]
+            if len(ex) != 1:
+                violate("cleanup_iff_started", f"{entry}:part2_ctx_exits:{len(ex)}:caller_cancelled_while_draining",
+                        f"the task awaiting cleanup() was cancelled while the server was draining requests in flight and "
+                        f"the cleanup code of the started context ran {len(ex)} times; {ctxd}")
+            if mk["listening"] or ADDR in net.listeners:
+                violate("no_new_connection", f"{entry}:still_listening",
+                        f"listener still registered (at on_shutdown: {mk['listening']}); {ctxd}")
+            for ci, sn in mk["snap"].items():
+                ct = conns[ci]["obs"]["close_t"]
+                if sn["idle"] and (ct is None or ct > st["hooks_done"] + 1e-6):
+                    violate("idle_closed_at_once", f"{entry}:idle_keepalive_closed_late",
+                            f"connection {ci} was idle keep-alive at on_shutdown (t={mk['t']:.4f}) but its transport was "
+                            f"closed at {ct} (on_shutdown delivered by {st['hooks_done']:.4f}, timeout {T}); {ctxd}")
         else:
             b = L.shutdown_bounds(st["hooks_done"], T)
             eps = 1e-6
@@ -1329,6 +1505,9 @@ def _run_part2(scn, ch, log):
             "p2_late_conn_accepted_before_stop": int(bool(late.get("conn", {}).get("accepted"))),
             "p2_late_request_sent": int(any(m and "late_req_at" in m for m in conns.values())),
             "p2_stream_truncated": int(any(m and m["kind"] == "stream" and any(r["out"] == "cancelled" for r in recs if r["conn"] == ci) for ci, m in conns.items())),
+            "p2_cleanup_task_cancelled_while_draining": int(bool(st.get("cleanup_cancelled"))),
+            "p2_cleanup_task_cancelled_in_grace_period": int(bool(st.get("cleanup_cancelled")) and bb is not None
+                                                             and st["cleanup_cancelled"]["t"] < bb["grace_min"]),
             "p2_ceil_rounding": int(bb is not None and bb["grace_end"] > bb["grace_min"] + 1e-9),
             "p2_step_placement_beyond_run_fallback_horizon": int((st.get("trigger") or {}).get("why") == "horizon" and sd.get("step") is not None),
         }
